@@ -1033,6 +1033,10 @@ func GenProg(t *rapid.T, pf Profile) *Prog {
 			}
 			it.Methods = append(it.Methods, m)
 		}
+		if len(it.Methods) > 0 && rapid.IntRange(0, 5).Draw(t, "embedLast") == 0 {
+			// some of the methods reach the converter interface through an embedded, unmarked interface of the file
+			it.EmbedLast = rapid.IntRange(1, len(it.Methods)).Draw(t, "embedLastN")
+		}
 		p.Ifaces = append(p.Ifaces, it)
 	}
 	// :conv whose converter is another function being generated in the same run (C06): the caller's
@@ -1138,14 +1142,16 @@ func (p *Prog) FixImports() {
 	}
 	for _, k := range KnownPkgs {
 		if k.Qual == "dotfn" {
-			if strings.Contains(sigText.String(), "DotS") || strings.Contains(sigText.String(), "DotD") {
-				p.Imports = append(p.Imports, Import{Name: ".", Path: k.Path})
-				continue
-			}
+			dot := strings.Contains(sigText.String(), "DotS") || strings.Contains(sigText.String(), "DotD")
 			for _, d := range DotFuncs {
-				if strings.Contains(noteText.String(), " "+d) {
-					p.Imports = append(p.Imports, Import{Name: ".", Path: k.Path})
-					break
+				dot = dot || strings.Contains(noteText.String(), " "+d)
+			}
+			if dot {
+				p.Imports = append(p.Imports, Import{Name: ".", Path: k.Path})
+				// a dot import cannot be blank at the same time: ordinary code of the setup file uses it as well, so that it
+				// is not left unused when a notation that names one of its functions ends as "no match" or is overridden
+				if use := "var _ = DotIntToStr // ordinary code that uses the dot import\n"; !strings.Contains(p.SetupFuncs, use) {
+					p.SetupFuncs += use
 				}
 			}
 			continue
